@@ -7,12 +7,13 @@ import Mathlib.Data.Nat.ModEq
 namespace CB.Monty
 open CB
 
-/-- parameter set as the property defines it (the part the history needs). -/
+/-- parameter set as the property defines it (the part the history needs). `m = 1` is allowed here: what fails
+    for modulus 1 is that the constructors do not produce such a parameter set (`one = 1 ≠ R mod 1`). -/
 structure Good (p : Params) (n m : Nat) : Prop where
   modulus : p.modulus = toLimbs n m
   mlt : m < B ^ n
   modd : m % 2 = 1
-  mgt : 1 < m
+  mpos : 0 < m
   one : p.one = toLimbs n (B ^ n % m)
   r2 : p.r2 = toLimbs n (B ^ (2 * n) % m)
   k : (p.modNegInv * m + 1) % B = 0
@@ -38,7 +39,6 @@ variable {n m : Nat}
 theorem canon_WF (x : Nat) : WF (canon n m x) := toLimbs_WF _ _
 theorem canon_length (x : Nat) : (canon n m x).length = n := toLimbs_length _ _
 theorem canon_val (hm : m < B ^ n) (hpos : 0 < m) (x : Nat) : val (canon n m x) = (x * B ^ n) % m := by
-  have _ := hm
   simp only [canon]
   exact val_toLimbs_lt (Nat.lt_trans (Nat.mod_lt _ hpos) hm)
 theorem canon_lt (hm : m < B ^ n) (hpos : 0 < m) (x : Nat) : val (canon n m x) < m := by
@@ -47,7 +47,7 @@ theorem canon_zero : canon n m 0 = uzero n := by
   simp only [canon, Nat.zero_mul, Nat.zero_mod, toLimbs_zero]
 
 /-- a canonical `n`-limb value `r < m` with `r·R ≡ t·R·R`-style congruence is the canonical form -/
-theorem eq_canon {l : List Nat} {x : Nat} (hm : m < B ^ n) (hodd : m % 2 = 1)
+theorem eq_canon {l : List Nat} {x : Nat} (_hm : m < B ^ n) (hodd : m % 2 = 1)
     (hw : WF l) (hl : l.length = n) (hlt : val l < m)
     (h : (val l * B ^ n) % m = ((x * B ^ n) % m * B ^ n) % m) : l = canon n m x := by
   have hpos : 0 < m := by omega
@@ -112,7 +112,7 @@ end
 section
 variable {s : State} {n m : Nat}
 
-theorem Good.pos (g : Good s.params n m) : 0 < m := by have := g.mgt; omega
+theorem Good.pos (g : Good s.params n m) : 0 < m := g.mpos
 theorem Good.mval (g : Good s.params n m) : val s.params.modulus = m := by
   rw [g.modulus]; exact val_toLimbs_lt g.mlt
 theorem Good.mWF (g : Good s.params n m) : WF s.params.modulus := by rw [g.modulus]; exact toLimbs_WF _ _
